@@ -685,7 +685,6 @@ def executed_pairs(block, rng, nscripts):
 LOWER_FINDINGS = {
     "C09-except-as-unbind": "`except E as v` unbinds v when the handler is left; the checker keeps v bound to the exception (and to earlier definitions) after the handler and reports no possibly-undefined name",
     "C09-dead-code-after-break": "a statement follows break/continue in its block: the dead code rewrites the scope already registered as a loop exit, so a definition live at the break is lost after the loop",
-    "C09-jump-through-finally": "break/continue leaving a try statement that has a finally clause: the loop exit scope is taken before the finally block (assignments made in finally are missing after the loop), and a break/continue inside the finally block reaches the loop exit only from the no-exception state",
 }
 UPPER_FINDING = ("C09-imprecise-reaching", "definitions reported that reach the use along no path (second collecting visit of a loop body starts from the state after the loop; dead-code assignments reach handlers; finally block visited on a path that cannot continue)")
 
@@ -706,6 +705,8 @@ def sets_ll(s):
         return any(sets_ll(t) for t in s[2])
     if s[0] == "witht" and not s[1]:
         return any(sets_ll(t) for t in s[-1])
+    if s[0] == "try":  # the finally block is visited (the second time) in the current dict
+        return any(sets_ll(t) for t in s[4])
     return False
 
 
@@ -781,8 +782,6 @@ def lower_class(block):
         return "C09-except-as-unbind"
     if not jumps_last(block):
         return "C09-dead-code-after-break"
-    if not no_jump_through_finally(block):
-        return "C09-jump-through-finally"
     return None
 
 
